@@ -91,3 +91,9 @@ claim('C12', 'evaluation of the isotropic closed forms in three (m,n,xi) frames 
       'nu from (K, mu), the theta branch table; for the anisotropic solver strain = sym grad u and stress = C:grad u for arbitrary eigen-data, eta, K = i sum(+-k L L), the sextic matrix blocks, A/L split, normalisation, and the four orthogonality relations '
       'guarding the stored solution (which give jump = b); the Burgers vector and the constants are rotated by the same matrix, four orientation routes, sibling transform function, unit/perpendicular m,n, relative round-off; fallback only on ValueError with identical arguments. '
       'Accuracy of the numerical eigen-solution, positive-definiteness of K and the isotropic limit are not decided. One defect found and fixed (n never checked for unit length).', 'DESIGN.md §6 C12')
+
+claim('C17', 'evaluation of the Cython kernels (read through Cython\'s parser) on symbolic tensors; recording-stub evaluation of solve_G / solve_nye / slip_vector / disregistry / differential displacement on model systems; match_pq on model vector sets',
+      'Decides structural necessary conditions: strain/rotation/invariants/angular velocity formulas; Nye tensor curl table, neighbour differences and least-squares gradient wiring; G from Q·G = P over the matched pairs with identity fallback, theta_max in degrees, '
+      'all derived caches cleared on every solve and lazily recomputed; nearest-angle matching with theta_max rejection and duplicate resolution; slip vector summed over exactly the atom\'s own neighbours with the reference cell, for unequal coordination; '
+      'disregistry taken from the two layers adjoining planepos·n for any plane normal, through the final box; differential displacement for the same (atom, neighbours); displacement box/periodicity pairing. '
+      'Numerical recovery of an imposed deformation by least squares over neighbour shells is not decided.', 'DESIGN.md §6 C17')
